@@ -114,7 +114,10 @@ for line in sys.stdin:
     if cmd.startswith("(assert") and beh == "crash_assert":
         die(3)
     sx = parse(tokens(cmd))[0]
-    if sx[0] in ("declare-fun", "declare-const"):
+    if sx[0] == "set-option" and sx[1] == ":random-seed" and sx[2] == "13":
+        beh = "unknown"         # the configuration under which this solver gives up
+        out("success")
+    elif sx[0] in ("declare-fun", "declare-const"):
         decls.append(sx[1].strip("|"))
         out("success")
     elif sx[0] == "assert":
